@@ -1,8 +1,8 @@
 /-
   C08 — calendar-instant arithmetic (`echs_instant_fixup`, `_diff`, `_add`, the ordering
   predicates, and the epoch conversions) agrees with the calendar specification
-  `Echse.Spec.Cal` on normal instants of the years 1901..2099; the daemon's `instant_to_tstamp`
-  (section 7) on every year.
+  `Echse.Spec.Cal` on normal instants of the years 1901..2099 (the epoch conversions, signed, from
+  1900-03-01 to 2100-02-28); the daemon's `instant_to_tstamp` (section 7) on every year.
   Statements only; helper lemmas live in Echse/Lemmas/Instant*.lean.
 -/
 import Echse.Lemmas.Instant
@@ -336,7 +336,7 @@ theorem frEpoch_spec_nat (t : Nat) (h : t < 4102444800) :
   obtain ⟨n, -, y2, a⟩ := frEpoch (t : Int) (by omega) (by omega)
   refine ⟨n, a, ?_, y2⟩
   rw [epochToInst_eq_I]
-  obtain ⟨⟨a1, a2, a3, a4⟩, -⟩ := n
+  obtain ⟨⟨a1, a2, a3, a4⟩, a5, a6, a7, -⟩ := n
   by_cases c : 1970 ≤ (epochToInstI t).y
   · exact c
   · have := days_lt_of_lex _ _ _ 1970 1 1 a1 a2 a4 (by omega) (by omega) (by omega) (Or.inl (by omega))
@@ -451,11 +451,30 @@ theorem tstamp_spec_sec (i : Inst) (h : NormalSec i ∨ Normal i) :
   rw [tstamp_spec_timed i a (by unfold allDay; omega)]
   simp only [absSec]; omega
 
-/-- where the library's conversion `__inst_to_epoch` (unsigned, every-4th-year rule) is right,
-1970..2099, the two agree. -/
-theorem tstamp_spec (i : Inst) (h : NormalSec i ∨ Normal i) (hy1 : 1970 ≤ i.y) (hy2 : i.y ≤ 2099) :
-    instToTstamp i = (instToEpoch i : Int) := by
+/-- where the library's conversion `__inst_to_epoch` (every-4th-year rule) is right, 1901..2099 — before 1970
+as well as after —, the two agree on timed instants. -/
+theorem tstamp_spec (i : Inst) (h : NormalSec i ∨ Normal i) (hy1 : 1901 ≤ i.y) (hy2 : i.y ≤ 2099) :
+    instToTstamp i = instToEpoch i := by
   rw [tstamp_spec_sec i h, toEpoch_spec i h hy1 hy2]
+
+/-- the same from 1900-03-01 to 2100-02-28, which is all the library's rule allows: they differ on 1900-02-28
+and on 2100-03-01 (witnesses below). -/
+theorem tstamp_spec_wide (i : Inst) (h : NormalSec i ∨ Normal i)
+    (hy1 : 1901 ≤ i.y ∨ (i.y = 1900 ∧ 3 ≤ i.m)) (hy2 : i.y ≤ 2099 ∨ (i.y = 2100 ∧ i.m ≤ 2)) :
+    instToTstamp i = instToEpoch i := by
+  rw [tstamp_spec_sec i h, toEpoch_spec_wide i h hy1 hy2]
+
+/-- on ALL-DAY instants the two do NOT agree: the daemon takes the midnight that begins the day, the library
+(hour clamped to 24) the midnight that ends it, a day later (unused minute and second fields zero). -/
+theorem tstamp_day_vs_epoch (i : Inst) (h : NormalDay i) (hM : i.M = 0) (hS : i.S = 0)
+    (hy1 : 1901 ≤ i.y ∨ (i.y = 1900 ∧ 3 ≤ i.m)) (hy2 : i.y ≤ 2099 ∨ (i.y = 2100 ∧ i.m ≤ 2)) :
+    instToEpoch i = instToTstamp i + 86400 := by
+  rw [tstamp_spec_day i h, toEpoch_spec_day i h hy1 hy2, hM, hS]; omega
+
+/-- on record: 1970-01-01 as an all-day instant is `86400` for the library and `0` for the daemon -/
+theorem allday_epoch_is_next_midnight :
+    instToEpoch ⟨1970,1,1,255,0,0,0⟩ = 86400 ∧ instToTstamp ⟨1970,1,1,255,0,0,0⟩ = 0 ∧
+    instToEpoch ⟨1970,1,1,255,0,0,0⟩ = instToEpoch ⟨1970,1,2,0,0,0,1023⟩ := by decide
 
 /-- the timestamp is monotone in the point in time … -/
 theorem tstamp_mono (x y : Inst) (hx : Normal x) (hy : Normal y) (h : absMs x ≤ absMs y) :
@@ -503,6 +522,28 @@ example : ltP ⟨2020,2,29,23,59,59,1023⟩ ⟨2020,2,29,23,59,59,0⟩ = true :=
 example : instToEpoch ⟨2000,2,29,12,0,0,1023⟩ = 951825600 := by decide
 example : epochToInst 951825600 = ⟨2000,2,29,12,0,0,1023⟩ := by decide
 example : epochToInst 4102444799 = ⟨2099,12,31,23,59,59,1023⟩ := by decide
+-- before 1970: the last second of 1969, the first of 1901, the model's base year boundary (years run from March
+-- 1948), the origin of the day count of `__epoch_to_inst` (1900-03-01) and the ends of the wide stretch
+example : instToEpoch ⟨1969,12,31,23,59,59,1023⟩ = -1 ∧ epochToInstI (-1) = ⟨1969,12,31,23,59,59,1023⟩ := by decide
+example : instToEpoch ⟨1970,1,1,0,0,0,1023⟩ = 0 ∧ epochToInstI 0 = ⟨1970,1,1,0,0,0,1023⟩ := by decide
+example : instToEpoch ⟨1901,1,1,0,0,0,1023⟩ = -2177452800 ∧
+    epochToInstI (-2177452800) = ⟨1901,1,1,0,0,0,1023⟩ := by decide
+example : instToEpoch ⟨1948,2,29,0,0,0,1023⟩ = -689212800 ∧
+    epochToInstI (-689212800) = ⟨1948,2,29,0,0,0,1023⟩ := by decide
+example : instToEpoch ⟨1948,3,1,0,0,0,1023⟩ = -689126400 ∧
+    epochToInstI (-689126400) = ⟨1948,3,1,0,0,0,1023⟩ := by decide
+example : instToEpoch ⟨1948,2,29,23,59,59,1023⟩ + 1 = instToEpoch ⟨1948,3,1,0,0,0,1023⟩ := by decide
+example : instToEpoch ⟨1900,3,1,0,0,0,1023⟩ = -2203891200 ∧
+    epochToInstI (-2203891200) = ⟨1900,3,1,0,0,0,1023⟩ := by decide
+example : instToEpoch ⟨2100,2,28,23,59,59,1023⟩ = 4107542399 ∧
+    epochToInstI 4107542399 = ⟨2100,2,28,23,59,59,1023⟩ := by decide
+example : instToEpoch ⟨1901,12,13,20,45,52,1023⟩ = -2147483648 := by decide      -- INT32_MIN
+-- outside the stretch the every-4th-year rule is off by a day: a 1900-02-29 and a 2100-02-29 are counted
+example : instToEpoch ⟨1900,2,28,0,0,0,1023⟩ + 2 * 86400 = instToEpoch ⟨1900,3,1,0,0,0,1023⟩ := by decide
+example : instToEpoch ⟨1900,2,28,0,0,0,1023⟩ ≠ instToTstamp ⟨1900,2,28,0,0,0,1023⟩ := by decide
+example : instToEpoch ⟨2100,3,1,0,0,0,1023⟩ = instToTstamp ⟨2100,3,1,0,0,0,1023⟩ + 86400 := by decide
+example : (epochToInstI (-2203891201)).m = 0 := by decide     -- one second before the origin: no date at all
+example : epochToInstI 4107542400 = ⟨2100,2,29,0,0,0,1023⟩ := by decide
 example : instToTstamp ⟨2020,1,1,255,0,0,0⟩ = 1577836800 := by decide
 example : instToTstamp ⟨1997,9,2,9,0,0,1023⟩ = 873190800 := by decide      -- before 2001
 example : instToTstamp ⟨1969,12,31,23,59,59,1023⟩ = -1 := by decide
